@@ -216,6 +216,7 @@ def csv_component(ck, rd, rng, tier):
         ("many short rows", b"a\n" + b"1\n" * 200000), ("huge number", b"a\n" + b"9" * 400 + b"\n1\n"), ("float edge", b"a\n1e400\n-1e400\nnan\ninf\n"), ("type flip after sample", b"a\n" + b"1\n" * 5000 + b"x\n"),
         ("bool-like then int", b"a\ntrue\nfalse\n1\n"), ("quoted newlines", b"a,b\n\"1\n2\",3\n"), ("tabs and semicolons", b"a;b\tc\n1;2\t3\n"), ("binary garbage", bytes(rng.below(256) for _ in range(5000))),
         ("control characters", bytes(range(1, 32)) * 10), ("unterminated quote swallowing 1 MiB", b"a,b\n1,\"" + b"x,y\n" * 250000),
+        ("unterminated quote swallowing 24 MiB", b"a,b\n1,2\n3,\"" + b"xyz,w\n" * (4 * 1024 * 1024)), ("single 20 MiB field", b"a,b\n1," + b"q" * (20 * 1024 * 1024) + b"\n2,3\n"),
     ]
     for what, data in bad:
         for opts in ["", ", header = true", ", delimiter = ';'", ", quote = ''''"] if tier != "quick" else ["", ", header = true"]:
